@@ -41,13 +41,15 @@ def touchSeries (a : GetArgs V) (now : Int) (s : Series V) : Series V :=
 def Reg.touch (r : Reg V) (a : GetArgs V) (now : Int) : Reg V :=
   updateMetric r a.name fun m => { m with series := m.series.map (touchSeries a now) }
 
-/-- the companion-name checks (`checkHistogramNameCollision`, `_sum/_count/_bucket` conflicts) -/
+/-- the companion-name checks: `checkHistogramNameCollision` (the name is a companion name of a registered
+    non-counter; all four types) and `checkObserverNameCollision` (a companion name `_sum/_count/_bucket` of the
+    requested observer is taken at all, whatever its type) -/
 def Reg.companion (r : Reg V) (ty : MType) (name : Bytes) : Bool :=
   match ty with
   | .counter => r.histNameCollision name
   | .gauge => r.histNameCollision name
-  | .histogram => r.conflicts (name ++ sfxSum) ty || r.conflicts (name ++ sfxCount) ty || r.conflicts (name ++ sfxBucket) ty
-  | .summary => r.conflicts (name ++ sfxSum) ty || r.conflicts (name ++ sfxCount) ty
+  | .histogram => r.taken (name ++ sfxSum) || r.taken (name ++ sfxCount) || r.taken (name ++ sfxBucket) || r.histNameCollision name
+  | .summary => r.taken (name ++ sfxSum) || r.taken (name ++ sfxCount) || r.histNameCollision name
 
 def reservedFor : MType → Bytes
   | .histogram => strBytes "le"
@@ -577,6 +579,72 @@ theorem histNameCollision_iff (r : Reg V) (name : Bytes) :
     subst hb
     rw [Bool.and_eq_true, (trim_append suf base).2]
     exact ⟨(trim_append suf base).1, (conflicts_iff r _ _).mpr ht⟩
+
+/-- `_, ok := r.Metrics[name]`: the name is registered, with whatever type -/
+theorem taken_iff (r : Reg V) (name : Bytes) : r.taken name = true ↔ ∃ t, r.type? name = some t := by
+  unfold Reg.taken Reg.type?
+  cases r.find name with
+  | none => simp
+  | some m => simp
+
+theorem taken_false_iff (r : Reg V) (name : Bytes) : r.taken name = false ↔ r.type? name = none := by
+  unfold Reg.taken Reg.type?
+  cases r.find name with
+  | none => simp
+  | some m => simp
+
+/-- the companion-name checks, spelled out: the base-name clause of `checkHistogramNameCollision` for every
+    type; for observers additionally "one of my companion names is registered at all" -/
+theorem companion_iff (r : Reg V) (ty : MType) (name : Bytes) :
+    r.companion ty name = true ↔
+      r.histNameCollision name = true ∨
+      (ty = .histogram ∧ ∃ suf, suf ∈ [sfxSum, sfxCount, sfxBucket] ∧ ∃ t, r.type? (name ++ suf) = some t) ∨
+      (ty = .summary ∧ ∃ suf, suf ∈ [sfxSum, sfxCount] ∧ ∃ t, r.type? (name ++ suf) = some t) := by
+  cases ty with
+  | counter => simp [Reg.companion]
+  | gauge => simp [Reg.companion]
+  | histogram =>
+    simp only [Reg.companion, Bool.or_eq_true, taken_iff, reduceCtorEq, false_and, or_false, true_and,
+      List.mem_cons, List.not_mem_nil]
+    constructor
+    · rintro (((h | h) | h) | h)
+      · exact Or.inr ⟨_, Or.inl rfl, h⟩
+      · exact Or.inr ⟨_, Or.inr (Or.inl rfl), h⟩
+      · exact Or.inr ⟨_, Or.inr (Or.inr rfl), h⟩
+      · exact Or.inl h
+    · rintro (h | ⟨suf, (rfl | rfl | rfl), h⟩)
+      · exact Or.inr h
+      · exact Or.inl (Or.inl (Or.inl h))
+      · exact Or.inl (Or.inl (Or.inr h))
+      · exact Or.inl (Or.inr h)
+  | summary =>
+    simp only [Reg.companion, Bool.or_eq_true, taken_iff, reduceCtorEq, false_and, false_or, true_and,
+      List.mem_cons, List.not_mem_nil, or_false]
+    constructor
+    · rintro ((h | h) | h)
+      · exact Or.inr ⟨_, Or.inl rfl, h⟩
+      · exact Or.inr ⟨_, Or.inr rfl, h⟩
+      · exact Or.inl h
+    · rintro (h | ⟨suf, (rfl | rfl), h⟩)
+      · exact Or.inr h
+      · exact Or.inl (Or.inl h)
+      · exact Or.inl (Or.inr h)
+
+/-- what a passed companion check establishes: the name is no companion name of a registered non-counter, and
+    no companion name of the requested observer is registered -/
+theorem companion_false {r : Reg V} {ty : MType} {name : Bytes} (h : r.companion ty name = false) :
+    r.histNameCollision name = false ∧
+    (ty = .histogram → r.type? (name ++ sfxSum) = none ∧ r.type? (name ++ sfxCount) = none ∧ r.type? (name ++ sfxBucket) = none) ∧
+    (ty = .summary → r.type? (name ++ sfxSum) = none ∧ r.type? (name ++ sfxCount) = none) := by
+  cases ty with
+  | counter => exact ⟨h, fun e => (by cases e), fun e => (by cases e)⟩
+  | gauge => exact ⟨h, fun e => (by cases e), fun e => (by cases e)⟩
+  | histogram =>
+    simp only [Reg.companion, Bool.or_eq_false_iff, taken_false_iff] at h
+    exact ⟨h.2, fun _ => ⟨h.1.1.1, h.1.1.2, h.1.2⟩, fun e => (by cases e)⟩
+  | summary =>
+    simp only [Reg.companion, Bool.or_eq_false_iff, taken_false_iff] at h
+    exact ⟨h.2, fun e => (by cases e), fun _ => ⟨h.1.1, h.1.2⟩⟩
 
 theorem getOrCreate_conflict_iff (r : Reg V) (ty : MType) (a : GetArgs V) (now : Int) :
     r.getOrCreate ty a now = .ok (.error .conflict) ↔
